@@ -293,6 +293,37 @@ func runC10(c *Ctx) {
 			c.Check(!skipped, "reassembly-decode", rkey+":after-every-segment", wr.Pos(), "every appended segment is followed by a decode attempt before the next segment is awaited", "after appending a segment the loop can go back to waiting for another segment without trying to decode the buffer: a message that ends exactly with this segment is not delivered until more bytes arrive")
 		}
 	}
+	// an incomplete message waits for more bytes: from the "need more data" path (the decode answered unexpected EOF) the
+	// next decode attempt is reachable only through the wait for the next segment — otherwise the loop spins on the same
+	// bytes and nothing that follows is ever delivered. The leftover flag is followed per path.
+	{
+		var waitBlocks []*ssa.BasicBlock
+		for _, op := range blockingOps(rl) {
+			for _, r := range op.recvs {
+				if strings.HasSuffix(r, ".muxerRecvChan") {
+					waitBlocks = append(waitBlocks, op.instr.Block())
+				}
+			}
+		}
+		isWait := func(b *ssa.BasicBlock) bool {
+			for _, w := range waitBlocks {
+				if w == b {
+					return true
+				}
+			}
+			return false
+		}
+		var starts []*ssa.BasicBlock
+		for _, ef := range edgeFacts(rl) {
+			if strings.HasPrefix(ef.Fact, "T:call:errors.Is(") && strings.Contains(ef.Fact, "ErrUnexpectedEOF") {
+				starts = append(starts, ef.From.Succs[ef.Succ])
+			}
+		}
+		if len(starts) > 0 && len(waitBlocks) > 0 {
+			reach := psReach(rl, starts, func(from *ssa.BasicBlock, succ int) bool { return isWait(from.Succs[succ]) })
+			c.Check(!reach[dec.Block()], "reassembly-decode", rkey+":incomplete-waits", dec.Pos(), "an incomplete message leads to the wait for the next segment before the buffer is decoded again", "after an incomplete decode the loop can come back to the decode without waiting for another segment (the leftover flag is still set on that path): it spins on the same bytes and the rest of the stream is never delivered")
+		}
+	}
 	// msgData = Bytes()[:n]
 	n := ssa.Value(nil)
 	for _, u := range referrersOf(dec.Value()) {
